@@ -127,7 +127,7 @@ func ReplayCheck(c *vk.Ctx, path string) {
 			fmt.Printf("  engine v2=%v mode=%-8q -> %s [%s]\n", v2, mode, o, v)
 			c.Case(fmt.Sprintf("replay|%v|%s", v2, mode), true)
 			if v != Agree && v != NotJudged && !v2 {
-				c.Violation(ClassifyCheck(c.ID, rc, Request{Object: w.Request.Object, Relation: w.Request.Relation, User: w.Request.User, Ctx: rctx}, k, o),
+				c.Violation(ClassifyCheck(c.ID, rc, Request{Object: w.Request.Object, Relation: w.Request.Relation, User: w.Request.User, Ctx: rctx}, k, o, mode),
 					fmt.Sprintf("replay|%v|%s", v2, mode), fmt.Sprintf("replayed disagreement: reference %s, server %s", k, o), map[string]any{"file": path})
 			}
 		}
